@@ -342,6 +342,7 @@ class IntervalKind(AbsInt):
         self.cols = cols  # (IV of the first column, IV of the second column)
         self.domrec = {} if recording else domrec
         self.recording = recording
+        self.attrs = {}
 
     # ---------------------------------------------------------------- domain
     def const(self, node, fr):
@@ -367,6 +368,8 @@ class IntervalKind(AbsInt):
     def self_attr(self, attr, node, fr):
         if attr == 'theta':
             return self.theta
+        if attr in self.attrs:
+            return self.attrs[attr]
         return TOP
 
     def global_name(self, dotted, node, fr):
@@ -623,6 +626,14 @@ def evaluate(ctx, cls, method, theta, u, v, extra=None, alts=False, domain=None,
     ins = [x for p in fr.params.values() for x in (p.elems if isinstance(p, Tup) else [p])]
     # third component: the result *is* the first / second input (returned unchanged)
     return [(val, definite, next((n for n, x in zip('uv', ins) if x is val), None)) for val, definite in ik.return_alts(fr)]
+
+
+def evaluate_attrs(ctx, cls, method, attrs):
+    """Return alternatives [(value, definite)] of a parameterless method for abstract values of self attributes."""
+    fn = cls.lookup(method)
+    ik = IntervalKind(ctx, attrs.get('theta', TOP), (TOP, TOP))
+    ik.attrs = {k: v.as_input() for k, v in attrs.items()}
+    return ik.return_alts(Frame(fn, {}, cls)), ik
 
 
 def _within(r, c):
